@@ -2662,6 +2662,192 @@ def _collocation_arms_flow(cm, arm_f, arm_g):
     return True, None
 
 
+_CONTAINER_MAKERS = ("dict", "list", "set", "defaultdict", "OrderedDict", "collections.defaultdict", "collections.OrderedDict", "deque",
+                     "collections.deque")
+_IN_PLACE = {"update": "table", "setdefault": "table", "__setitem__": "table", "append": "grow", "extend": "grow", "insert": "grow",
+             "add": "grow", "pop": "shrink", "popitem": "shrink", "clear": "shrink", "remove": "shrink"}
+
+
+def _fresh_container(e):
+    return isinstance(e, (ast.Dict, ast.List, ast.Set, ast.DictComp, ast.ListComp, ast.SetComp)) or \
+        (isinstance(e, ast.Call) and src(e.func) in _CONTAINER_MAKERS)
+
+
+def state_shared_between_instances(mod, cls_name, entry_points, consequence=None):
+    """Per-instance state kept in ONE object shared by all instances of a class: a mutable container assigned in the class body (or a
+    mutable default value of a constructor parameter) that `__init__` fills IN PLACE with a content depending on the constructor's
+    arguments.  Every construction then overwrites what the instances built before see ("the last constructed one wins").
+    -> [(verdict False | None, node, text)]; nothing when no such state exists.
+
+    ASSUMPTIONS of a False verdict, all checked here:
+      (1) the name is bound in the class body / as a default value to a freshly made container, and NO method of the class ever binds it
+          on the instance (`self.NAME = ...`, setattr, __dict__ - any mention of the name as a string counts), so `self.NAME` IS the
+          shared object;
+      (2) `__init__` changes the container in place (`self.NAME.update(...)`, `self.NAME[k] = v`, ...) under a key that does not depend
+          on the instance with a value that does (arguments of the constructor, `self`), so two instances built with different arguments
+          leave different contents;
+      (3) an entry point reads the container through the same name (directly, or in a method / property of the class it uses)."""
+    out = []
+    try:
+        cls = mod.cls(cls_name)
+        methods = mod.methods(cls_name)
+    except AnalysisError:
+        return out
+    init = methods.get("__init__")
+    if init is None:
+        return out
+    shared = {}
+    for st in cls.body:
+        if isinstance(st, ast.Assign) and len(st.targets) == 1 and isinstance(st.targets[0], ast.Name) and _fresh_container(st.value):
+            shared[st.targets[0].id] = ("class", st)
+        elif isinstance(st, ast.AnnAssign) and isinstance(st.target, ast.Name) and st.value is not None and _fresh_container(st.value):
+            shared[st.target.id] = ("class", st)
+    pos = init.args.posonlyargs + init.args.args
+    for a, d in list(zip(pos[len(pos) - len(init.args.defaults):], init.args.defaults)) + \
+            [(a, d) for a, d in zip(init.args.kwonlyargs, init.args.kw_defaults) if d is not None]:
+        if _fresh_container(d):
+            shared[a.arg] = ("default", d)
+    if not shared:
+        return out
+    params = {a.arg for a in pos + init.args.kwonlyargs if a.arg != "self"}
+    # locals of the constructor that depend on its arguments (closure over the assignments, any order)
+    tainted, changed = set(params), True
+    while changed:
+        changed = False
+        for st in ast.walk(init):
+            tv = None
+            if isinstance(st, ast.Assign):
+                tv = (st.targets, st.value)
+            elif isinstance(st, (ast.AugAssign, ast.AnnAssign)) and st.value is not None:
+                tv = ([st.target], st.value)
+            elif isinstance(st, ast.For):
+                tv = ([st.target], st.iter)
+            elif isinstance(st, ast.NamedExpr):
+                tv = ([st.target], st.value)
+            if tv is None:
+                continue
+            if any(isinstance(x, ast.Name) and (x.id in tainted or x.id == "self") for x in ast.walk(tv[1])):
+                for t in tv[0]:
+                    for x in ast.walk(t):
+                        if isinstance(x, ast.Name) and isinstance(x.ctx, ast.Store) and x.id not in tainted:
+                            tainted.add(x.id)
+                            changed = True
+
+    def access(e, name, kind):
+        """does the expression denote the shared container `name`?"""
+        if kind == "default":
+            return isinstance(e, ast.Name) and e.id == name
+        return isinstance(e, ast.Attribute) and e.attr == name and src(e.value) in ("self", "type(self)", "self.__class__", cls_name, "cls")
+
+    def inst_dep(e, name, kind):
+        """names of the constructor's arguments (or `self`) the expression depends on"""
+        skip = {id(y) for x in ast.walk(e) if access(x, name, kind) for y in ast.walk(x)}
+        return {x.id for x in ast.walk(e) if isinstance(x, ast.Name) and id(x) not in skip and (x.id in tainted or x.id == "self")}
+
+    def module_display(e):
+        if isinstance(e, ast.Name):
+            ds = [st for st in mod.tree.body if isinstance(st, ast.Assign) and len(st.targets) == 1 and src(st.targets[0]) == e.id]
+            if len(ds) == 1:
+                return src(ds[0].value)
+        return None
+    for name, (kind, where) in shared.items():
+        # (1) never bound on the instance
+        rebound = None
+        for mname, m in methods.items():
+            for n in ast.walk(m):
+                if isinstance(n, ast.Attribute) and n.attr == name and isinstance(n.ctx, (ast.Store, ast.Del)) and kind == "class":
+                    rebound = f"`{src(n)}` is bound in `{mname}`"
+                if isinstance(n, ast.Constant) and n.value == name:
+                    rebound = f"the name is used as a string in `{mname}` (setattr / __dict__ ?)"
+                if kind == "default" and isinstance(n, ast.Name) and n.id == name and isinstance(n.ctx, ast.Store) and m is init:
+                    rebound = f"the parameter is re-bound in `{mname}`"
+        # (2) changed in place by the constructor
+        events = []          # (node, verdict, text)
+        for n in ast.walk(init):
+            if isinstance(n, ast.Call) and isinstance(n.func, ast.Attribute) and n.func.attr in _IN_PLACE and access(n.func.value, name, kind):
+                how = _IN_PLACE[n.func.attr]
+                if how != "table":
+                    events.append((n, None, f"`{src(n)[:70]}` changes the shared container in place"))
+                    continue
+                pairs = None
+                if n.func.attr in ("setdefault", "__setitem__") and len(n.args) == 2:
+                    pairs = [(n.args[0], n.args[1])]
+                elif n.func.attr == "update" and len(n.args) == 1 and not n.keywords and isinstance(n.args[0], ast.Dict) and \
+                        all(k is not None for k in n.args[0].keys):
+                    pairs = list(zip(n.args[0].keys, n.args[0].values))
+                elif n.func.attr == "update" and not n.args and n.keywords and all(k.arg for k in n.keywords):
+                    pairs = [(ast.Constant(value=k.arg), k.value) for k in n.keywords]
+                if pairs is not None:
+                    events += [(n, *pair_verdict(k, v, name, kind, inst_dep)) for k, v in pairs]
+                elif n.func.attr == "update" and len(n.args) == 1 and isinstance(n.args[0], ast.IfExp):
+                    a = n.args[0]
+                    d = inst_dep(a.test, name, kind)
+                    da, db = module_display(a.body), module_display(a.orelse)
+                    if d and da is not None and db is not None and da != db:
+                        events.append((n, False, f"`{src(n)[:90]}` copies one of two different tables into it according to `{src(a.test)}`, "
+                                       f"which depends on the constructor's {sorted(d)}"))
+                    elif not d and not inst_dep(a, name, kind):
+                        pass
+                    else:
+                        events.append((n, None, f"`{src(n)[:90]}` changes the shared container in place; whether the content differs from "
+                                       "one instance to the next is not followed"))
+                elif n.args or n.keywords:
+                    if inst_dep(n, name, kind):
+                        events.append((n, None, f"`{src(n)[:90]}` changes the shared container in place; whether the content differs from "
+                                       "one instance to the next is not followed"))
+            if isinstance(n, (ast.Assign, ast.AugAssign)):
+                for t in (n.targets if isinstance(n, ast.Assign) else [n.target]):
+                    if isinstance(t, ast.Subscript) and access(t.value, name, kind):
+                        events.append((n, *pair_verdict(t.slice, n.value, name, kind, inst_dep)))
+        events = [e for e in events if e[1] is not True]
+        if not events:
+            continue
+        # (3) read where the instance is used
+        used_by = {}
+        for mname, m in methods.items():
+            if m is init:
+                continue
+            if any(access(x, name, kind) and isinstance(getattr(x, "ctx", None), ast.Load) for x in ast.walk(m)):
+                used_by[mname] = m
+        readers = [e for e in entry_points if e in used_by or (e in methods and any(
+            isinstance(x, ast.Attribute) and src(x.value) == "self" and x.attr in used_by for x in ast.walk(methods[e])))]
+        if kind == "default" and not used_by:
+            # a default container is reached later only if the constructor keeps it
+            kept = [n for n in ast.walk(init) if isinstance(n, ast.Assign) and isinstance(n.value, ast.Name) and n.value.id == name]
+            if not kept:
+                continue
+            readers = []
+        sure = [e for e in events if e[1] is False]
+        origin = (f"`{name}` is bound once, in the body of class {cls_name} (`{src(where)[:60]}`)" if kind == "class" else
+                  f"the default value `{src(where)[:40]}` of the parameter `{name}` of {cls_name}.__init__ is made once, when the function is defined")
+        if sure and rebound is None and readers:
+            n, _v, text = sure[0]
+            out.append((False, n, f"{origin}: ONE object shared by all instances, and no method binds `{name}` on the instance. {text}: "
+                        f"every construction overwrites the content every existing {cls_name} sees - the last constructed one wins. "
+                        f"`{cls_name}.{readers[0]}` reads it: " + (consequence or
+                        "a spline whose basis is of the other family than the most "
+                        "recently constructed spline is evaluated by the other family's kernel on its own knot array ((xmin, xmax, dx, ncells) "
+                        "read as knots or the reverse)")))
+        else:
+            n, _v, text = (sure or events)[0]
+            why = rebound or ("no entry point was found to read it" if not readers else "whether instances leave different contents is not followed")
+            out.append((None, n, f"{origin}; {text}; not established as a defect: {why}"))
+    return out
+
+
+def pair_verdict(k, v, name, kind, inst_dep):
+    """one `container[k] = v` of the constructor -> (True harmless | False later instances overwrite | None, text)"""
+    dk, dv = inst_dep(k, name, kind), inst_dep(v, name, kind)
+    if not dv:
+        return True, ""
+    if not dk:
+        return False, (f"`{src(k)[:30]}: {src(v)[:60]}` stores under a key that is the same for every instance a value that depends on the "
+                       f"constructor's {sorted(dv)}")
+    if dv <= dk:
+        return True, ""          # a memo: everything the value depends on is part of the key
+    return None, f"`{src(k)[:30]}: {src(v)[:60]}`: the value depends on {sorted(dv - dk)}, which the key does not contain"
+
+
 def dispatch_and_wrap(chk):
     KERNEL_COEFFS.clear()
     smod = chk.mod(U.SPLINES)
@@ -2730,6 +2916,11 @@ def dispatch_and_wrap(chk):
             chk.ob("E1-dispatch", fn, f"{q}: hand-over to a cu_/nu_ evaluator", None,
                    "no call of a spline evaluator found in this entry point (own methods written back: " + str(sp_.inlined) + "; not followed: " +
                    str(sp_.opaque) + ")", file=U.SPLINES, func=q)
+    # the kernels / state an entry point uses are the instance's own
+    for cls_name in ("Spline1D", "Spline2D"):
+        for verdict, node, text in state_shared_between_instances(smod, cls_name, ("eval", "eval_vector")):
+            chk.ob("E1-dispatch", node, f"{cls_name}: state used by eval / eval_vector is the instance's own", verdict, text,
+                   file=U.SPLINES, func=f"{cls_name}.__init__")
     # Spline2D requires both bases of one family
     init2 = smod.func("Spline2D.__init__")
     fam = [n for n in ast.walk(init2) if isinstance(n, ast.Attribute) and n.attr in ("cubic_uniform", "_cubic_uniform_splines")]
